@@ -1,3 +1,6 @@
+#ifndef _GNU_SOURCE
+#define _GNU_SOURCE
+#endif
 /* h_one: one (or more) wrapped execve calls between VERIF markers, for the ptrace executor.
  * usage: h_one <cfgpath> <resultfile> [uid] [ncalls] [devlogpath|-] [message length -> env M] [fill char]
  * The executable contains snoopy's objects (production wrapper); librec.so is the real-exec seam. */
@@ -72,6 +75,7 @@ int main(int argc, char **argv) {
     if (argc > 6) { long ml = atol(argv[6]); char *m = malloc(ml + 1); memset(m, argc > 7 ? argv[7][0] : 'm', ml); m[ml] = 0; setenv("M", m, 1); free(m); }
     verif_rec_cb = cb;
     FILE *resf = fopen(argv[2], "w");   /* the result channel is opened before privileges are dropped */
+    if (getenv("VERIF_STDIN_PTY")) { int m = posix_openpt(O_RDWR | O_NOCTTY); grantpt(m); unlockpt(m); int sl = open(ptsname(m), O_RDWR | O_NOCTTY); dup2(sl, 0); close(sl); }
     /* sink states of the caller's own stdout / stderr: "gone:<fds>" = pipe whose reader has closed, "full:<fds>" = pipe that is
        full and that nobody reads, "nearly:<fds>" = the same with one page of room, "sockgone:<fds>" = stream socket whose peer has closed */
     { const char *st = getenv("VERIF_STD_STATE");
